@@ -1141,7 +1141,7 @@ func runJournalTrips(c *Ctx) {
 					// guarded by !ok of the lookup under the same key
 					for _, ce := range dominatingConds(blk) {
 						if ex, isEx := ce.Cond.(*ssa.Extract); isEx && ex.Index == 1 && !ce.Val {
-							if lk, isLk := ex.Tuple.(*ssa.Lookup); isLk && (lk.X == mu.Map || mapCellOf(c, lk.X) == mapCellOf(c, mu.Map)) && (lk.Index == mu.Key || canon(lk.Index) == canon(mu.Key)) {
+							if lk, isLk := ex.Tuple.(*ssa.Lookup); isLk && (lk.X == mu.Map || mapCellOf(c, lk.X) == mapCellOf(c, mu.Map) || sameSetOnceField(c, lk.X, mu.Map)) && (lk.Index == mu.Key || canon(lk.Index) == canon(mu.Key)) {
 								okCreate = true
 							}
 						}
@@ -1201,7 +1201,10 @@ func runJournalTrips(c *Ctx) {
 				prev = a
 			}
 		}
-		if phi, isPhi := prev.(*ssa.Phi); !isPhi || phi.Block() != feedLoop.Header {
+		if freshFieldSet(c, prev, vanishLoop, feedLoop) {
+			// the previous feed's set is kept in a field of the per-journal state object and replaced, once per call of
+			// the per-feed method, by the set made and filled during that call
+		} else if phi, isPhi := prev.(*ssa.Phi); !isPhi || phi.Block() != feedLoop.Header {
 			okVanish, whyV = false, "the set of trips present in the previous feed is not replaced after each feed (a single reused set or a time comparison cannot tell a skipped update from a vanished trip)"
 		} else {
 			fresh := false
@@ -1229,6 +1232,60 @@ func runJournalTrips(c *Ctx) {
 			}
 			if !fresh {
 				okVanish, whyV = false, "the previous-feed set is not the fresh per-feed set built while applying the feed"
+			}
+		}
+	}
+	// ... and the marking pass runs for every feed: no path around the feed loop goes past it (a "nothing vanished"
+	// shortcut decided by a count would skip it when one trip vanishes while another is listed twice)
+	if okVanish {
+		var site *ssa.BasicBlock
+		if vanishLoop.Header.Parent() == bj {
+			site = vanishLoop.Header
+		} else {
+			hf := vanishLoop.Header.Parent()
+			var reaches func(g *ssa.Function, d int) bool
+			reaches = func(g *ssa.Function, d int) bool {
+				if g == hf {
+					return true
+				}
+				if g == nil || d > 2 || len(g.Blocks) == 0 {
+					return false
+				}
+				for _, gb := range g.Blocks {
+					for _, gin := range gb.Instrs {
+						if call, ok := gin.(*ssa.Call); ok && reaches(staticCallee(call), d+1) {
+							return true
+						}
+					}
+				}
+				return false
+			}
+			for blk := range feedLoop.Blocks {
+				for _, in := range blk.Instrs {
+					if call, ok := in.(*ssa.Call); ok && reaches(staticCallee(call), 0) {
+						site = blk
+					}
+				}
+			}
+		}
+		if site != nil && feedLoop.Blocks[site] {
+			skipped := false
+			pathsWithin(feedLoop.Header, feedLoop, func(path []*ssa.BasicBlock, back bool) {
+				if !back {
+					return
+				}
+				has := false
+				for _, pb := range path {
+					if pb == site {
+						has = true
+					}
+				}
+				if !has {
+					skipped = true
+				}
+			})
+			if skipped {
+				okVanish, whyV = false, "the pass that marks vanished trips is skipped for some feeds (it runs under a condition): a trip that disappears in such a feed is never marked past"
 			}
 		}
 	}
@@ -1317,6 +1374,8 @@ func runJournalTrips(c *Ctx) {
 			if x != "" {
 				for i := range got {
 					got[i] = strings.ReplaceAll(got[i], x, "X")
+					// the same entry seen through a helper that was handed it: an element of the journal's table
+					got[i] = strings.ReplaceAll(got[i], "new(journal.Trip)", "X")
 				}
 			}
 			sort.Strings(got)
@@ -1527,6 +1586,7 @@ func runTripUpdateShape(c *Ctx, tu *ssa.Function, b *binder) {
 	c.Check(okGuard, "ACCT", fname, "an update without a vehicle does not alter an assigned trip", p.pos(tu.Pos()), "return before any store when trip.IsAssigned && tripUpdate.Vehicle == nil", "an assigned trip's recorded data can be altered by an update that lacks a vehicle")
 	// the block where the real work starts: the first block that stores through the receiver
 	var body *ssa.BasicBlock
+	var storeBlocks []*ssa.BasicBlock
 	for _, blk := range tu.Blocks {
 		hasStore := false
 		for _, in := range blk.Instrs {
@@ -1550,9 +1610,26 @@ func runTripUpdateShape(c *Ctx, tu *ssa.Function, b *binder) {
 				}
 			}
 		}
+		if hasStore {
+			storeBlocks = append(storeBlocks, blk)
+		}
 		if hasStore && (body == nil || blk.Dominates(body)) {
 			body = blk
 		}
+	}
+	// the work starts at the nearest block that dominates every block with a store: a store under a condition of its
+	// own (`if id changed { trip.RouteID = .. }`) does not move the starting point into that condition
+	for body != nil {
+		all := true
+		for _, sb := range storeBlocks {
+			if !(body == sb || body.Dominates(sb)) {
+				all = false
+			}
+		}
+		if all {
+			break
+		}
+		body = body.Idom()
 	}
 	if body == nil {
 		c.Violated("ACCT", fname, "bookkeeping fields", p.pos(tu.Pos()), "Trip.update stores nothing")
@@ -1986,4 +2063,92 @@ func callsOnEveryPath(h, callee *ssa.Function, region []*ssa.Function) bool {
 		}
 	})
 	return ok && n > 0
+}
+
+// sameSetOnceField: a and b are loads of the same unexported field of the same object (a parameter or local
+// variable), and that field is assigned exactly once in the module (where the struct is built): both denote one map.
+func sameSetOnceField(c *Ctx, a, b ssa.Value) bool {
+	la, okA := a.(*ssa.UnOp)
+	lb, okB := b.(*ssa.UnOp)
+	if !okA || !okB || la.Op != token.MUL || lb.Op != token.MUL {
+		return false
+	}
+	fa, okA := la.X.(*ssa.FieldAddr)
+	fb, okB := lb.X.(*ssa.FieldAddr)
+	if !okA || !okB || fa.X != fb.X || fa.Field != fb.Field {
+		return false
+	}
+	vals, ok := c.P.unexportedFieldStores(fa)
+	return ok && len(vals) == 1
+}
+
+// freshFieldSet: prev (the set the marking loop ranges over) is a load of an unexported field F of the receiver of
+// the method h that contains the marking loop; h stores into F exactly once, after the marking loop and before every
+// return, a map it made itself; F is stored nowhere else except where the state object is built; and h is called
+// inside the feed loop. The set of the previous feed is then replaced by a fresh one for every feed.
+func freshFieldSet(c *Ctx, prev ssa.Value, vanishLoop, feedLoop *Loop) bool {
+	ld, ok := prev.(*ssa.UnOp)
+	if !ok || ld.Op != token.MUL {
+		return false
+	}
+	fa, ok := ld.X.(*ssa.FieldAddr)
+	if !ok {
+		return false
+	}
+	recv, ok := fa.X.(*ssa.Parameter)
+	if !ok {
+		return false
+	}
+	h := recv.Parent()
+	if h != vanishLoop.Header.Parent() {
+		return false
+	}
+	if _, ok := c.P.unexportedFieldStores(fa); !ok {
+		return false
+	}
+	// stores into the field: one in h (a map made in h), the others only in composite literals outside h
+	var inH []*ssa.Store
+	for _, fn := range c.P.ModFns {
+		for _, b := range fn.Blocks {
+			for _, in := range b.Instrs {
+				st, isSt := in.(*ssa.Store)
+				if !isSt {
+					continue
+				}
+				a2, isFA := st.Addr.(*ssa.FieldAddr)
+				if !isFA || a2.Field != fa.Field || typeName(a2.X.Type()) != typeName(fa.X.Type()) {
+					continue
+				}
+				if fn == h {
+					inH = append(inH, st)
+					continue
+				}
+				if al, isAl := a2.X.(*ssa.Alloc); !isAl || al.Comment != "complit" {
+					if _, isAl2 := a2.X.(*ssa.Alloc); !isAl2 {
+						return false
+					}
+				}
+			}
+		}
+	}
+	if len(inH) != 1 {
+		return false
+	}
+	st := inH[0]
+	mk, isMk := st.Val.(*ssa.MakeMap)
+	if !isMk || mk.Parent() != h || vanishLoop.Blocks[st.Block()] || !vanishLoop.Header.Dominates(st.Block()) {
+		return false
+	}
+	for _, b := range h.Blocks {
+		if _, isRet := b.Instrs[len(b.Instrs)-1].(*ssa.Return); isRet && !(st.Block() == b || st.Block().Dominates(b)) {
+			return false
+		}
+	}
+	// h is called in the feed loop
+	for _, e := range c.P.Callers(h) {
+		if e.Site != nil && feedLoop.Blocks[e.Site.Block()] {
+			return true
+		}
+	}
+	return false
 }
